@@ -5,7 +5,9 @@ ASCII_ADDRS = ["a@b.c", "user@example.com", "first.last@example.org", "\"a b\"@e
 UTF8_ADDRS = ["用户@例え.jp", "üser@example.com", "a@bücher.de"]
 MSGS = [b"hello\r\n", b".leading dot\r\n.\r\n..\r\n", b"", b"Subject: x\r\n\r\nbody\r\n", b"caf\xc3\xa9\r\n", b"\xff\xfe binary\r\n",
         b"line\r\n.\r\nMAIL FROM:<evil@x>\r\n", b"bare\nlf\rcr", b"x" * 3000 + b"\r\n"]
-FEATURES = ["8BITMIME", "SMTPUTF8", "STARTTLS", "AUTH PLAIN LOGIN", "AUTH XOAUTH2", "SIZE 1000", "PIPELINING", "auth plain", "AUTH=PLAIN"]
+FEATURES = ["8BITMIME", "SMTPUTF8", "STARTTLS", "AUTH PLAIN LOGIN", "AUTH XOAUTH2", "SIZE 1000", "PIPELINING", "auth plain", "AUTH=PLAIN",
+            # a keyword is the first word of its line: these lines advertise nothing
+            "X-NOTE 8BITMIME SMTPUTF8 are not offered here", "HELP 8BITMIME", "X-INFO STARTTLS AUTH PLAIN LOGIN"]
 
 NEG = {
     "greeting": [b"554 no service\r\n", b"421 busy\r\n", b"421-busy\r\n421 later\r\n"],
@@ -62,7 +64,8 @@ def fault(rng, pos):
 
 def happy(rng, feats, nrcpt, multi=False):
     """list of (position name, step) for connect + one send + quit"""
-    m = (lambda p, d: POS_MULTI[p] if multi and rng.random() < 0.5 else d)
+    # sometimes a multi-line acceptance, sometimes the bare code (RFC 5321 4.2: the text is optional)
+    m = (lambda p, d: POS_MULTI[p] if multi and rng.random() < 0.5 else (d[:3] + b"\r\n" if rng.random() < 0.08 else d))
     s = [("greeting", step(b"220 srv ESMTP\r\n")), ("ehlo", step(ehlo_reply(rng, feats))), ("mail", step(m("mail", b"250 ok\r\n")))]
     for _ in range(nrcpt):
         s.append(("rcpt", step(m("rcpt", b"250 ok\r\n"))))
